@@ -478,9 +478,8 @@ func (self *Analyzer) importItem(node pAst.ImportStatement) ast.AnalyzedImport {
 						item.Span,
 					)
 
-					if _, prevFound := self.currentModule.addTrigger(item.Ident, trigg); prevFound {
-						self.error(fmt.Sprintf("Trigger '%s' already exists in current scope", item.Ident), nil, item.Span)
-					}
+					// nothing is registered: a trigger without its signatures cannot be checked against,
+					// a `trigger` statement naming it reports the undefined trigger
 					continue
 				}
 
